@@ -20,7 +20,7 @@ for N in 1 2 3; do
   mkdir -p tests && cp $S/demo_$N.rs tests/seed_demo_$N.rs
   clean=$(CARGO_NET_OFFLINE=true timeout 900 cargo test --offline --test seed_demo_$N 2>&1 | grep -E "^test result" | head -1)
   if git apply $S/mutation_$N.diff 2>/dev/null; then applied=yes; else applied=no; fi
-  mutated=$(CARGO_NET_OFFLINE=true timeout 900 cargo test --offline --test seed_demo_$N 2>&1 | grep -E "^test result|error: could not compile|timed out" | head -1)
+  mutated=$(CARGO_NET_OFFLINE=true timeout 900 cargo test --offline --test seed_demo_$N 2>&1 | grep -a -E "^test result|error: could not compile|timed out|signal: 6, SIGABRT" | head -1)
   base=$(python3 /verif/tools/baseline.py $W 2>&1 | head -1)
   git checkout -q -- . ; rm -f tests/seed_demo_$N.rs
   # --- 2. run the checks against the change
